@@ -38,6 +38,57 @@ def bmc_uniqueness(ck, tier):
     ck.obligation(f'bmc-k{k}:token-never-reissued-within-a-lifetime', cs, z3.Not(z3.Or(alts)), {}, on_w, small)
 
 
+def bmc_nonzero(ck, tier, prop='C02'):
+    """along every history from the empty store (request CAS values unrestricted, so the counter may be driven anywhere):
+    no acknowledged mutation and no retrieval reports the reserved CAS 0"""
+    k = 3 if tier == 'quick' else 4
+    cmds = ['set', 'get', 'increment'] if tier == 'quick' else ['set', 'get', 'add', 'append', 'increment', 'delete']
+    sysm = bmc.System(ck, 1, cmds)
+    tr, cs = sysm.unroll(k, tag='~z')
+    zero = []
+    for t in range(k):
+        zero.append(z3.And(z3.Or([tr.cmd[t] == CMD_ID[c] for c in MUT if c in cmds] + [tr.cmd[t] == CMD_ID['get']]), tr.rkind[t] == 0, tr.rcas[t] == 0))
+    small = [z3.ULE(tr.S[0].now, 100)] + [z3.ULE(vlen_(tr.I[t].val), 8) for t in range(k)]
+
+    def on_w(m, where):
+        rep, desc, sc, out = sysm.replay(m, tr)
+        if out is None:
+            return None, desc, sc
+        from .wire import parse_response
+        z = False
+        for c in out['steps'][:k]:
+            if c.get('response'):
+                r = parse_response(bytes.fromhex(c['response']))
+                z = z or (r['status'] == 0 and r['cas'] == 0 and r['opcode'] not in (0x04, 0x14, 0x08, 0x18))
+        return (True if z else None), desc + ' | a successful response carries CAS 0', sc
+    ck.bounds['bmc-nonzero'] = f'histories of {k} commands from {cmds} on 1 key from the empty store, request CAS any u64'
+    ck.obligation(f'bmc-k{k}:no-response-carries-the-reserved-cas-0', cs, z3.Not(z3.Or(zero)), {}, on_w, small)
+
+
+def bmc_reissue_two_keys(ck, tier):
+    """token uniqueness with a second key through which the shared counter can be driven (client-chosen CAS on an absent key)"""
+    k = 5
+    sysm = bmc.System(ck, 2, ['set'])
+    tr, cs = sysm.unroll(k, tag='~r')
+
+    def mut_ok(t):
+        return z3.And(tr.key[t] == 0, tr.rkind[t] == 0)
+    alts = []
+    for s in range(k):
+        for b in range(s + 1, k):
+            life = [z3.Not(tr.S[s].live(0)), mut_ok(s), tr.I[s].cas == 0]
+            life += [tr.S[u].live(0) for u in range(s + 1, b + 1)]
+            for a in range(s, b):
+                alts.append(z3.And(life + [mut_ok(a), mut_ok(b), tr.rcas[a] == tr.rcas[b]]))
+    small = [z3.ULE(tr.S[0].now, 100)] + [z3.ULE(vlen_(tr.I[t].val), 8) for t in range(k)]
+
+    def on_w(m, where):
+        rep, desc, sc, out = sysm.replay(m, tr)
+        return rep, desc, sc
+    ck.bounds['bmc-two-keys'] = f'histories of {k} set commands (any CAS) on 2 keys from the empty store'
+    ck.obligation(f'bmc-k{k}:token-never-reissued-within-a-lifetime (2 keys, shared counter)', cs, z3.Not(z3.Or(alts)), {}, on_w, small)
+
+
 def vlen_(v):
     from mirse.models.bytesm import vlen
     return vlen(v)
@@ -50,6 +101,8 @@ def run(tier, seed, replay_path=None):
     ck.engine()
     run_store_checks(ck, CMDS, {'kind', 'cas', 'cas-unique', 'invariant', 'vis', 'value', 'panic'}, K=2, tier=tier)
     bmc_uniqueness(ck, tier)
+    bmc_nonzero(ck, tier)
+    bmc_reissue_two_keys(ck, tier)
     return ck.finish()
 
 
